@@ -169,7 +169,19 @@ def make_interp(run, base_it, log, device=None):
             return I.Opaque('str')
         return None
 
-    hooks = {'dict_pick': dict_pick, 'external': external, 'opaque_attr': opaque_attr, 'opaque_index': opaque_index, 'symstr_method': symstr_method,
+    def binop(it, op, a, b):
+        # firmware + b'..' * n  /  firmware + padding
+        if op is ast.Add and all(isinstance(x, (W.SymSized, bytes, I.SymRepeat)) for x in (a, b)):
+            la, lb = I._b_len(it, [a], {}) if not isinstance(a, W.SymSized) else a.length, I._b_len(it, [b], {}) if not isinstance(b, W.SymSized) else b.length
+            out = W.SymSized('bytes', it.binop(ast.Add, la, lb))
+            unit = b.unit if isinstance(b, I.SymRepeat) else (b if isinstance(b, bytes) else None)
+            if isinstance(unit, bytes):
+                log.append(('accumulate', 'concat', 'firmware', unit if set(unit) <= {0} and unit else unit))
+            out.parts = (a, b)
+            return out
+        return NotImplemented
+
+    hooks = {'binop': binop, 'dict_pick': dict_pick, 'external': external, 'opaque_attr': opaque_attr, 'opaque_index': opaque_index, 'symstr_method': symstr_method,
              'int_of_str': int_of_str, 'len': b_len, 'range': b_range}
     it = I.Interp(run, base_it.mods, hooks=hooks)
     install_loop_rules(it, run, log, fresh_int)
